@@ -316,6 +316,32 @@ func runRamp(c rcase) string {
 	return kit.Res(crashed, err, kit.Ints(outs))
 }
 
+// runStagedBuilder builds the staged profile the way `f1 run staged` does, through the builder's
+// flag set (no --startTime: the profile starts at its first query).
+func runStagedBuilder(c scase) string {
+	parts := make([]string, len(c.stages))
+	for i, s := range c.stages {
+		parts[i] = fmt.Sprintf("%s:%d", time.Duration(s[0]).String(), s[1])
+	}
+	var outs []int64
+	var total time.Duration
+	var err error
+	crashed, _ := kit.Guard(func() {
+		cfg := runkit.Config{Mode: "staged", Flags: map[string]string{"stages": strings.Join(parts, ","), "iterationFrequency": "1s", "distribution": "none", "jitter": "0"},
+			Opts: options.RunOptions{MaxDuration: time.Second}}
+		trig, e := runkit.BuildTrigger(&cfg, ui.NewDiscardOutput())
+		if e != nil {
+			err = e
+			return
+		}
+		total = trig.Duration
+		for _, t := range c.ts {
+			outs = append(outs, int64(trig.DryRun(time.Unix(0, t))))
+		}
+	})
+	return kit.Res(crashed, err, kit.List(kit.Ints(outs), kit.I(int64(total))))
+}
+
 // runRampBuilder builds the ramp the way `f1 run ramp` does - through the builder's flag set, next
 // to a --max-duration that may be shorter than, equal to or longer than --ramp-duration - and
 // samples the trigger's rate function: the ramp is the line over the configured ramp duration,
@@ -456,6 +482,12 @@ func TestC10(t *testing.T) {
 		}
 		o.Case("ramp", []string{kit.I(c.from), kit.I(c.to), kit.I(c.dur), kit.Ints(c.ts)}, runRampBuilder(c, maxD), "ramp", "builder", "nt")
 	}
+	for i := 0; i < kit.N(200, 3000); i++ {
+		c := genStaged(r)
+		c.start, c.direct = nil, false
+		o.Case("staged", c.args(), runStagedBuilder(c), "staged", "builder", "nt")
+	}
+	o.Count("staged", "built through the command's flag set")
 	o.Count("ramp", "built through the command's flag set next to --max-duration")
 	o.Count("instances", "pairs alive at once, queried in turn")
 }
